@@ -29,6 +29,13 @@ impl PathBuf {
     /// TRUSTED (std::path::Path::exists): does the path exist right now
     #[verifier::external_body]
     pub fn exists(&self) -> (r: bool) ensures r == path_exists(self@) { unimplemented!() }
+    /// TRUSTED (other std::path::Path probes; each implies existence, none is implied by it)
+    #[verifier::external_body]
+    pub fn is_file(&self) -> (r: bool) ensures r == path_is_file(self@), r ==> path_exists(self@) { unimplemented!() }
+    #[verifier::external_body]
+    pub fn is_dir(&self) -> (r: bool) ensures r == path_is_dir(self@), r ==> path_exists(self@) { unimplemented!() }
+    #[verifier::external_body]
+    pub fn is_symlink(&self) -> (r: bool) ensures r == path_is_symlink(self@) { unimplemented!() }
 }
 
 #[verifier::external_body]
@@ -136,3 +143,6 @@ impl<'a> ProcessTransaction<'a> {
 // ---- the file system as read during one call (a fixed snapshot: "sources are not edited during a run")
 pub uninterp spec fn cur_stamp(name: Seq<char>) -> Seq<char>;
 pub uninterp spec fn path_exists(name: Seq<char>) -> bool;
+pub uninterp spec fn path_is_file(name: Seq<char>) -> bool;
+pub uninterp spec fn path_is_dir(name: Seq<char>) -> bool;
+pub uninterp spec fn path_is_symlink(name: Seq<char>) -> bool;
